@@ -77,6 +77,16 @@ static INLINE int get_relative_dist(const OrderHintInfo *oh, int a, int b) {
     diff = (diff & (m - 1)) - (diff & m);
     return diff;
 }
+#ifdef SVT_AV1_VERIF
+/* verification hook: exported wrapper of this file's static get_relative_dist */
+int svt_verif_reldist_pd(int bits, int a, int b) {
+    OrderHintInfo oh;
+    memset(&oh, 0, sizeof(oh));
+    oh.enable_order_hint = 1;
+    oh.order_hint_bits   = bits;
+    return get_relative_dist(&oh, a, b);
+}
+#endif
 
 void svt_av1_setup_skip_mode_allowed(PictureParentControlSet  *parent_pcs_ptr) {
 
